@@ -22,7 +22,10 @@ func runC03(c *Ctx) {
 			d = asm.D88
 		}
 		cfg := randAsmConfig(r, d)
-		o := asm.GenOpts{Cfg: cfg, MaxLines: 1 + r.Intn(12), UseLabels: r.Chance(3, 4), UseEqus: r.Chance(1, 2), UseConsts: r.Chance(1, 2), Meta: r.Chance(1, 2)}
+		o := asm.GenOpts{Cfg: cfg, MaxLines: 1 + r.Intn(12), UseLabels: r.Chance(3, 4), UseEqus: r.Chance(1, 2), UseConsts: r.Chance(1, 2), Meta: r.Chance(1, 2), EndLabel: true}
+		if cfg.Length == cfg.CoreSize && r.Chance(1, 2) {
+			o.ExactLines = cfg.Length // a program that fills its tiny core completely
+		}
 		p := asm.GenProg(r, o)
 		mn, err := p.Meaning()
 		if err != nil {
